@@ -153,6 +153,7 @@ class Engine:
         self.max_steps = max_steps
         self.inline_loops = inline_loops
         self._loops = {}
+        self._assert_sites = {}
         self._promoted = {}
         self._pconst = {}
         self._cur_site = None
@@ -282,6 +283,54 @@ class Engine:
                     not any(isinstance(x, tuple) and x and x[0] in ("ref", "call", "param") for x in subterms(ps[0].ret)):
                 self._promoted[ck] = ps[0].ret
         return self._promoted[ck]
+
+    def assert_sites(self, body):
+        """blocks whose call computes the predicate of an assertion: the bool result is used only to choose between going on
+        and a block that inevitably panics (`assert!(pred(..))`, `debug_assert!(self.is_consistent())`)"""
+        bid = body["id"]
+        if bid in self._assert_sites:
+            return self._assert_sites[bid]
+        blocks = body["blocks"]
+
+        def panics(bi, depth=0):
+            if depth > 8:
+                return False
+            t = blocks[bi]["term"]
+            if t["k"] == "call":
+                if t.get("target") is None:
+                    fnp = (t["func"].get("fn") or {}).get("path", "")
+                    return fnp.startswith(("core::panicking", "std::rt::begin_panic", "core::panic"))
+                return panics(t["target"], depth + 1)
+            if t["k"] == "goto":
+                return panics(t["target"], depth + 1)
+            return False
+
+        out = set()
+        for i, blk in enumerate(blocks):
+            t = blk["term"]
+            if t["k"] != "call" or t.get("target") is None or "fn" not in t["func"] or t["dest"]["p"]:
+                continue
+            l = t["dest"]["l"]
+            nb = blocks[t["target"]]
+            cond_local = l
+            ok = True
+            for st_ in nb["stmts"]:
+                # at most a negation of the result in between
+                if st_["k"] == "assign" and st_["rv"]["k"] == "unop" and st_["rv"].get("a", {}).get("place", {}).get("l") == cond_local \
+                        and not st_["place"]["p"]:
+                    cond_local = st_["place"]["l"]
+                elif st_["k"] in ("storage_live", "storage_dead", "nop"):
+                    continue
+                else:
+                    ok = False
+            nt = nb["term"]
+            if not ok or nt["k"] != "switch" or nt["discr"].get("place", {}).get("l") != cond_local or nt["discr"].get("place", {}).get("p"):
+                continue
+            tg = [b for _, b in nt["targets"]] + [nt["otherwise"]]
+            if len(tg) == 2 and sum(1 for b in tg if panics(b)) == 1:
+                out.add(i)
+        self._assert_sites[bid] = out
+        return out
 
     def lazy_static_value(self, key):
         """value of `static KEY: LazyLock<T> = LazyLock::new(<closure or fn>)`: the single return value of the initialiser"""
@@ -843,13 +892,16 @@ class Engine:
                 site = blk.get("tspan")
                 forks = []
                 is_bool = t.get("discr_ty") == "bool"
+                dd = d[1] if d[0] == "not" else d
+                quiet = any(e.get("assert_predicate") and e["result"] == dd for e in st.events)
                 for v, b in targets:
                     if v in excl:
                         continue
                     s2 = st.fork()
                     s2.known[d] = ("is", v)
                     self.propagate(s2, d, v)
-                    s2.conds.append((d, v, site))
+                    if not quiet:
+                        s2.conds.append((d, v, site))
                     s2.frames[-1] = fr._replace(bi=b, si=0)
                     forks.append(s2)
                 # otherwise
@@ -873,7 +925,8 @@ class Engine:
                             ov = 1 - targets[0][0]
                             s2.known[d] = ("is", ov)
                             self.propagate(s2, d, ov)
-                            s2.conds.append((d, ov, site))
+                            if not quiet:
+                                s2.conds.append((d, ov, site))
                         elif nvar is not None:
                             s2.known[d] = ("is", nvar)
                             s2.conds.append((d, nvar, site))
@@ -1061,6 +1114,15 @@ class Engine:
         # 2. inlining (trait-method calls left unresolved in polymorphic MIR are devirtualised when the receiver
         #    is an aggregate of a known type with exactly one impl of that trait method)
         body = self.facts.bodies.get(rid)
+        if body is not None and (body.get("sig_output") or "") == "bool" and fr.bi in self.assert_sites(fr.body):
+            # the predicate of an assertion (`debug_assert!(self.is_consistent())`): what it computes is the assertion's
+            # business (C20 audits the panic), not part of the function's behaviour - it stays an opaque, pure call
+            st.notes.append("assertion predicate not inlined: " + key)
+            n_ev = len(st.events)
+            r = self.opaque_call(st, fr, fn, args, dest, target, site, pure=True)
+            if len(st.events) > n_ev:
+                st.events[n_ev]["assert_predicate"] = True
+            return r
         if body is None and "trait" in fn and "resolved" not in fn and args:
             recv = args[0]
             if isinstance(recv, tuple) and recv and recv[0] == "ref":
